@@ -40,6 +40,7 @@ def main(tier):
     ck.units += prog.units
     seen_fns = {}
     n_regions = 0
+    visited = {}
     for shp in shapes(tier):
         nr, nt, nsc, dirbc = shp
         sk = "nr=%d ntheta=%d nsc=%d DirBC=%s" % shp
@@ -47,6 +48,7 @@ def main(tier):
         for kind, o in notes:
             if kind == "oob":
                 ck.fail("R-C11-1", "out-of-range:%s" % o[0][0], o[0][3], "%s: access %s[%s] beyond length %s" % ((sk,) + o[0][:3]))
+        visited.update(getattr(S.dom, "visited", {}))
         if S.dom.unknown_omp:
             raise ir.AnalysisBroken("OpenMP construct outside the model: %r" % (S.dom.unknown_omp[0],))
         for label, r in regs:
@@ -104,6 +106,19 @@ def main(tier):
             ck.violation("R-C11-2", "%s:%s" % (label, bad[0]), r.site, "vector kernel %s accumulates into `%s` from several iterations without a reduction clause" % (label, bad[0]))
         else:
             ck.ok("R-C11-2", key, sample={"kernel": label, "reductions": r.reductions})
+    # ---------------- predicate census: the cut-off premise of the shape family
+    ck.rule("R-C11-4", "predicate census: comparisons in the interpreted code use literals 0..8 / the 10 000 threshold, moduli 2,3,4 (cut-off premise of the shape family)", floor=1)
+    n_atoms, bad_atoms = eff_runs.predicate_census(visited)
+    ck.instance("R-C11-4", "census over %d interpreted functions, %d literal atoms" % (len(visited), n_atoms))
+    if bad_atoms:
+        a = bad_atoms[0]
+        ck.broke("cut-off premise violated: the condition `%s` in %s (%s) compares with a literal outside the census; the shape family no longer covers every case" % a)
+    else:
+        ck.ok("R-C11-4", "census", sample={"functions": len(visited), "literal atoms": n_atoms})
+    ck.extra["interpreted_functions"] = len(visited)
+    for qn, f in visited.items():
+        if not qn.startswith(("std::", "__gnu")):
+            ck.analysed(f)
     # ---------------- coverage census over the whole library
     cg = structq.CallGraph(whole)
     total = 0
